@@ -28,6 +28,7 @@ type input struct {
 	EP   int    `json:"endpoint,omitempty"` // index into endpoints (route)
 	Hex  string `json:"hex,omitempty"`
 	Raw  *string `json:"raw,omitempty"` // route: the percent-encoded spelling put on the request line (absent: canonical encoding)
+	Opts string  `json:"opts,omitempty"` // route: name of the server option configuration (absent: default options)
 	H    string `json:"h,omitempty"` // hex
 	R    string `json:"r,omitempty"`
 	T    string `json:"t,omitempty"`
@@ -468,6 +469,40 @@ var fixed = []string{
 	"a.b/c:t@x", "a.b/c:t@\n", "a.b/c:t@x\n", "a.b/c:t\n@sha256:00", "a.b/c@x@y", "a.b/c:t:u@v", "a.b/c:t/u", "a:1/b:t/u",
 }
 
+// the path elements and query keys the distribution protocol itself uses
+var routeKeywords = []string{"referrers", "blobs", "manifests", "tags", "uploads", "list", "_catalog", "v2", "mount", "from", "digest"}
+
+// decorations that other tools write around a reference (URL-ish schemes, slashes, white space,
+// userinfo, fragments, queries, a trailing dot): none of them belongs to any part, so a decorated
+// valid reference must be rejected by both entry points, or parse and print back exactly
+var decoPrefixes = []string{"oci://", "OCI://", "Oci://", "oci:/", "oci:", "docker://", "http://", "https://", "HTTPS://", "registry://", "tcp://", "ssh://", "file:///", "//", "/", "./", " ", "\t", "\n", "\r\n", "\x00", "\ufeff", "user@", "user:pw@", "@", ":", "-", ".", "_"}
+var decoSuffixes = []string{"/", "//", " ", "\t", "\n", "\r\n", "\x00", ".", ":", "@", "#frag", "#", "?q=1", "?", "/.", "/..", ":latest", "@sha256:", "-", "_"}
+
+// decorate calls f on s wrapped in every decoration (each prefix, each suffix, a few pairs), on
+// its upper-cased / lower-cased / title-cased spellings and on s with a scheme before the
+// repository instead of the host.
+func decorate(r *rand.Rand, s string, f func(string)) {
+	f(s)
+	for _, p := range decoPrefixes {
+		f(p + s)
+	}
+	for _, q := range decoSuffixes {
+		f(s + q)
+	}
+	for k := 0; k < 4; k++ {
+		f(decoPrefixes[r.Intn(len(decoPrefixes))] + s + decoSuffixes[r.Intn(len(decoSuffixes))])
+	}
+	f(decoPrefixes[r.Intn(8)] + decoPrefixes[r.Intn(8)] + s) // a scheme twice: stripping once leaves one
+	f(strings.ToUpper(s))
+	f(strings.ToLower(s))
+	f(strings.ToUpper(s[:1]) + s[1:])
+	if i := strings.IndexByte(s, '/'); i > 0 {
+		f(strings.ToUpper(s[:i]) + s[i:]) // the host alone in upper case
+		f(s[:i+1] + "oci://" + s[i+1:])
+		f(s[:i] + "//" + s[i+1:])
+	}
+}
+
 const enumAlphabet = "ab./:@-_1A[]"
 
 func enumerate(maxLen int, f func(string)) {
@@ -528,6 +563,7 @@ func main() {
 	var pending []pend
 	seen := map[string]bool{}
 	dups := 0
+	optRuns := map[string]int{} // routed requests per server option configuration (before duplicates are dropped)
 	emit := func(c hx.Case, counts []string) {
 		if seen[c.Coq] {
 			dups++
@@ -547,6 +583,7 @@ func main() {
 			}
 		}
 		out.Extra["duplicates_dropped_by_harness"] = dups
+		out.Extra["route_requests_by_server_options"] = optRuns
 		if err := out.Flush(); err != nil {
 			panic(err)
 		}
@@ -600,17 +637,27 @@ func main() {
 			Tags: map[string]any{"class": "parts/" + origin + "/" + outcome, "origin": origin, "outcome": outcome}},
 			[]string{"kind:parts", "origin:" + origin, "parts:" + outcome, "parts_reparse:" + o.Rel.State})
 	}
-	addRouteEP := func(ep int, w string, raw *string, mode, origin string) {
-		coq, o := runRoute(ep, w, raw)
-		in := input{Kind: "route", Hex: hex.EncodeToString([]byte(w)), EP: ep, Raw: raw}
+	addRouteOpt := func(ep int, w string, raw *string, mode, origin, opts string) {
+		if _, applies := expectation(endpoints[ep], opts, w); !applies {
+			return // the option switches this endpoint off
+		}
+		coq, o := runRoute(ep, w, raw, opts)
+		optRuns[optLabel(opts)]++
+		in := input{Kind: "route", Hex: hex.EncodeToString([]byte(w)), EP: ep, Raw: raw, Opts: opts}
 		spelling := "canonical"
 		if raw != nil {
 			spelling = "respelled"
 		}
+		if opts != "" {
+			spelling += "/" + opts
+		}
 		emit(hx.Case{Coq: coq, Desc: map[string]any{"input": in, "text": printable(w), "observed": o, "origin": origin, "spelling": mode},
 			Tags: map[string]any{"class": "route/" + endpoints[ep].Pos + "/" + endpoints[ep].Name + "/" + spelling + "/" + o.Accepted, "origin": origin, "outcome": o.Accepted, "spelling": mode}},
 			[]string{"kind:route", "route_pos:" + endpoints[ep].Pos, "route_accepted:" + endpoints[ep].Pos + ":" + o.Accepted, "origin:" + origin,
-				"route_spelling:" + mode, "route_accepted_spelling:" + spelling + ":" + o.Accepted})
+				"route_spelling:" + mode, "route_accepted_spelling:" + spelling + ":" + o.Accepted, "route_options:" + optLabel(opts)})
+	}
+	addRouteEP := func(ep int, w string, raw *string, mode, origin string) {
+		addRouteOpt(ep, w, raw, mode, origin, "")
 	}
 	// one respelling of w for endpoint ep in the given mode; false when it is the canonical one
 	respell := func(ep int, w, mode string) (string, bool) {
@@ -628,6 +675,17 @@ func main() {
 				if raw, ok := respell(ep, w, mode); ok {
 					addRouteEP(ep, w, &raw, mode, origin)
 					break
+				}
+			}
+			// the same request under every other server option configuration: the canonical
+			// encoding always, one other spelling at every twelfth endpoint on average
+			for _, oc := range optConfigs[1:] {
+				addRouteOpt(ep, w, nil, "canonical", origin, oc.Name)
+				if rng.Intn(12) == 0 {
+					mode := spellModes[rng.Intn(len(spellModes))]
+					if raw, ok := respell(ep, w, mode); ok {
+						addRouteOpt(ep, w, &raw, mode, origin, oc.Name)
+					}
 				}
 			}
 		}
@@ -657,7 +715,7 @@ func main() {
 			if in.Raw != nil {
 				mode = "given"
 			}
-			addRouteEP(in.EP, dec(in.Hex), in.Raw, mode, origin)
+			addRouteOpt(in.EP, dec(in.Hex), in.Raw, mode, origin, in.Opts)
 		case "parts":
 			addParts(dec(in.H), dec(in.R), dec(in.T), dec(in.D), origin)
 		default:
@@ -899,6 +957,35 @@ func main() {
 		addStr(h+"/r", "host")
 	}
 
+	// 5b. decorated spellings of valid references that have a host (and of host-less ones): both
+	// entry points see each, so "Parse = ParseRelative restricted to references with a host" and
+	// "what parses prints back exactly" are checked on every one
+	decoBases := []string{"foo.com/bar:v1", "foo.com/bar", "localhost:5000/a/b@" + okDigest, "reg.example.io/x/y:t@" + okDigest, "[::1]:80/r:t", "127.0.0.1/r", "bar:v1", "a/b"}
+	nDeco := 12
+	if cfg.Thorough() {
+		nDeco = 200
+	}
+	for i := 0; i < nDeco; i++ {
+		t, d := "", ""
+		if rng.Intn(2) == 0 {
+			t = genTag(rng, true)
+		}
+		if rng.Intn(3) == 0 {
+			d = genDigest(rng, true)
+		}
+		decoBases = append(decoBases, join(genHost(rng), genRepo(rng, true), t, d))
+	}
+	for _, b := range decoBases {
+		decorate(rng, b, func(s string) { addStr(s, "decorated") })
+	}
+	for _, b := range decoBases[:4] { // a decoration inside a part: the printer must not hide it either
+		for _, p := range decoPrefixes[:8] {
+			addParts(p+"foo.com", "bar", "v1", "", "decorated")
+			addParts("foo.com", p+"bar", "v1", "", "decorated")
+			addStr(p+b+"\n", "decorated")
+		}
+	}
+
 	// 6. unstructured bytes
 	nu := 600
 	if cfg.Thorough() {
@@ -953,6 +1040,21 @@ func main() {
 	for _, s := range []string{okRepo, okRepo2, okDigest, "sometag", "a/blobs/uploads", "a/manifests/b", "a/tags/list", "a/referrers/x",
 		"blobs", "manifests", "uploads", "tags", "referrers", "v2", "_catalog", "a/b/", "/a/b", "a//b", "../a", "a/../b", ".", "..", "%2e", "a%2fb", "a?b", "a#b", "a b", "A/b", "a/B"} {
 		addRoute(s, "routing-words")
+	}
+	// repository names (and tags) built from the protocol's own path keywords: as the only element,
+	// first, inner, last, doubled, and in the combinations the router cuts paths at
+	var kwNames []string
+	for _, kw := range routeKeywords {
+		kwNames = append(kwNames, kw, "acme/"+kw, kw+"/api", "acme/"+kw+"/api", kw+"/"+kw, "my-"+kw, kw+"-x/y", kw+"/"+okDigest, "x/"+kw+"/"+okUploadID64)
+		for _, kw2 := range routeKeywords {
+			if kw != kw2 && rng.Intn(3) == 0 {
+				kwNames = append(kwNames, kw+"/"+kw2, "a/"+kw+"/"+kw2+"/b")
+			}
+		}
+	}
+	kwNames = append(kwNames, "blobs/uploads", "a/blobs/uploads/b", "v2/a", "v2/v2/v2", "tags/list", "a/tags/list/b", "manifests/latest", "referrers/blobs/uploads", "uploads/blobs")
+	for _, s := range kwNames {
+		addRoute(s, "routing-keywords")
 	}
 	// names, tags and digests the predicates accept (and near misses), in every spelling mode
 	for _, s := range []string{okRepo, "foo", "a.b/c_d/e--f", "r0/r1/r2__x", "Foo", "foo/.bar", "sometag", "v1.2.3-rc.1", "_x", "-bad", "bad+tag", "a b",
